@@ -220,8 +220,10 @@ func (p *protocolV2) Pack(ctx *protocol.Context, packet *protocol.Packet, opts .
 	copy(data[len(hd)+len(md):], packet.Body)
 
 	if packet.Metadata.Verify {
-		binary.BigEndian.PutUint64(data[hl+bl:hl+bl+v1.NonceLength], packet.Metadata.Nonce)
-		copy(data[hl+bl+v1.NonceLength:], packet.Metadata.Signature)
+		// nonce and signature follow header, metadata and body
+		off := hl + len(md) + bl
+		binary.BigEndian.PutUint64(data[off:off+v1.NonceLength], packet.Metadata.Nonce)
+		copy(data[off+v1.NonceLength:], packet.Metadata.Signature)
 	}
 
 	return data, nil
